@@ -44,7 +44,8 @@ right, pad width and alphabet capacity through format() or str.format with
 constant specs; C15.3 where[:why] is split once and every slot passed by
 from_data is decoded; C15.4 get_with_metadata decodes by the stored format;
 C15.5 an empty list clears every schema and the DN tenant order is reversed on
-both sides.
+both sides. Fourth round: C15.5 the LDAP update diff filters a value only when
+it is None.
 Does NOT decide round-trip equality and injectivity over the value domains
 (type coercions, port 0 vs wildcard, None vs empty list).
 """
